@@ -25,7 +25,7 @@ func main() {
 	c := hx.New("C02")
 	defer c.Finish()
 	lib.Init()
-	total := c.Pick(6000, 160000)
+	total := c.Pick(24000, 800000)
 	per := total / c.NBatch
 	sessions := map[string]*lib.ExpSession{}
 	defer func() {
